@@ -16,7 +16,7 @@ def mc(chk, sc, cfgname, expect_violation=None, timeout=600, workers=None):
         if r.violated != expect_violation:
             raise Broken("negative model test HeapMC_%s: expected %s to be violated, got %s %s"
                          % (cfgname, expect_violation, r.violated, r.error))
-        chk.cov["mc_runs"].append(dict(name="HeapMC_" + cfgname, negative=True, violated=r.violated, **r.summary()))
+        chk.cov["mc_runs"].append(dict(name="HeapMC_" + cfgname, negative=True, **r.summary()))
         return r
     vlib.require_tlc_ok(r, "HeapMC_" + cfgname)
     if r.violated:
